@@ -1053,7 +1053,7 @@ type outcome struct {
 	executed  []string
 }
 
-const callTimeout = 30 * time.Second
+var callTimeout = hx.ScaledTimeout(30 * time.Second)
 
 // execWatched runs one op with a watchdog: e.g. a power iteration on a matrix that is not
 // stochastic never converges.
